@@ -215,8 +215,9 @@ def is_valid(case: dict) -> bool:
         return False
     if not python_calendar_ok(case['calendar'], utc):
         return False
-    frac = (case.get('sp') or {}).get('frac', '')
-    if frac.strip('0'):
+    sp = case.get('sp') or {}
+    frac = sp.get('frac', '') if sp.get('seconds', True) and sp.get('time', True) else ''
+    if frac and int(float('0.' + frac) * 1e6) != 0:
         return False
     return True
 
